@@ -1402,3 +1402,60 @@ Proof.
     match goal with Eq : ci_push c = PushRefDel _ |- _ => rewrite Eq end.
     rewrite stored_list_refl, str_eqb_refl. reflexivity.
 Qed.
+
+Lemma hget_some_addrs : forall a h, is_some (hget a h) = existsb (N.eqb a) (map fst h).
+Proof.
+  intros a h. induction h as [|[a' m] h IH]; cbn; [reflexivity|].
+  destruct (a =? a')%N; [reflexivity | exact IH].
+Qed.
+
+Lemma wf_call_addrs : forall h h' tbl c, map fst h' = map fst h -> wf_call h' tbl c = wf_call h tbl c.
+Proof.
+  intros h h' tbl c E. unfold wf_call. destruct (ci_pa c); try reflexivity.
+  rewrite !hget_some_addrs, E. reflexivity.
+Qed.
+
+Lemma sign_oci_wf_heap : forall tbl h sp c st' t,
+  wf_heap h = true -> sign_oci false tbl (mk_state h sp) c = (st', t) -> wf_heap (s_heap st') = true.
+Proof.
+  intros tbl h sp c st' t W H. apply sign_oci_spec in H.
+  inversion H; subst; cbn [s_heap]; try exact W;
+    match goal with Hg : gen_ann _ _ _ = _ |- _ => exact (wf_heap_gen_ann _ _ _ _ _ W Hg) end.
+Qed.
+
+Lemma spec_calls_model : forall tbl probes cs h sp,
+  wf_heap h = true -> forallb (wf_call h tbl) cs = true ->
+  spec_calls tbl probes h sp cs (run_calls false tbl probes (mk_state h sp) cs) = true.
+Proof.
+  intros tbl probes cs. induction cs as [|c cs IH]; intros h sp W Wc; [reflexivity|].
+  cbn [forallb] in Wc. apply andb_true_iff in Wc. destruct Wc as [Wc1 Wc2].
+  cbn [run_calls]. destruct (sign_oci false tbl (mk_state h sp) c) as [st' t] eqn:E.
+  cbn [spec_calls]. rewrite (spec_call_model _ _ _ _ _ _ _ W Wc1 E). cbn [andb co_heap co_stored].
+  pose proof (sign_oci_wf_heap _ _ _ _ _ _ W E) as W'.
+  destruct (frame _ _ _ _ _ E) as (Fa & _). cbn [s_heap] in Fa.
+  destruct st' as [h' sp']. cbn [s_heap s_stored] in *.
+  apply IH; [exact W'|].
+  rewrite forallb_forall in Wc2 |- *. intros c0 Hc0.
+  rewrite (wf_call_addrs _ _ _ _ Fa). apply Wc2. exact Hc0.
+Qed.
+
+Theorem model_spec_ok : forall i, wf i = true -> spec_ok i (model i) = true.
+Proof.
+  intros i W. unfold wf in W. apply andb_true_iff in W. destruct W as [W1 W2].
+  unfold spec_ok, model. apply spec_calls_model; assumption.
+Qed.
+
+(* ================= whole histories ================= *)
+
+Theorem history_frame : forall tbl probes cs st o a,
+  In o (run_calls false tbl probes st cs) ->
+  (forall c, In c cs -> ci_pa c <> PAMap a) ->
+  hget a (co_heap o) = hget a (s_heap st).
+Proof.
+  intros tbl probes cs. induction cs as [|c cs IH]; intros st o a Hin Hpa; [destruct Hin|].
+  cbn [run_calls] in Hin. destruct (sign_oci false tbl st c) as [st' t] eqn:E.
+  destruct (frame _ _ _ _ _ E) as (_ & F & _).
+  assert (hget a (s_heap st') = hget a (s_heap st)) as E1 by (apply F; apply Hpa; left; reflexivity).
+  destruct Hin as [<- | Hin]; [exact E1|].
+  rewrite <- E1. apply (IH st' o a Hin). intros c0 Hc0. apply Hpa. right. exact Hc0.
+Qed.
